@@ -5,7 +5,7 @@ verbatim from /repo and placed under flattened class skeletons."""
 import re
 
 from .core import Undecided
-from .extract import extract_function, rewrite
+from .extract import extract_function, rewrite, extract_local_helpers
 
 W = r'\s*'
 CORE_MEM = 'src/core/memory.cpp'
@@ -281,7 +281,12 @@ def build_unit(ctx, gc_text):
                       'device::wrapMemory(ptr, entries, dtype, props)',
                       [(RV, r'occa::memory device::wrapMemory\(const void \*ptr,', 'void device::wrapMemory(occa::memory &verif_ret, const void *ptr,', 1),
                        (RV, r'return mem;', '{ verif_ret = mem; return; }', 1)]))
-    real = '\n\n'.join(parts)
+    helpers = []
+    for rel in (CORE_MEM, INT_MEM, INT_BUF, SER_BUF, SER_MEM):
+        for h in extract_local_helpers(ctx, rel):
+            fns.append(h)
+            helpers.append(h.text)
+    real = '\n\n'.join(helpers + parts)
     real, n = re.subn(r'\bnullptr\b', '0', real)
     real, n = re.subn(r'\bdelete\s+([A-Za-z_]\w*)\s*;', r'verif_delete(\1);', real)
     if n < 2:
